@@ -81,6 +81,9 @@ func Load(repo, harness string, want ...string) (*Program, error) {
 	}
 	pats := append([]string{}, want...)
 	pats = append(pats, "grits/zzvn")
+	if _, err := os.Stat(filepath.Join(harness, "zzpub")); err == nil {
+		pats = append(pats, "grits/zzpub")
+	}
 	pkgs, err := packages.Load(cfg, pats...)
 	if err != nil {
 		return nil, err
